@@ -129,6 +129,15 @@ func (tx *Transaction) validateSigner(ctx *action.Context, signedTx action.Signe
 		return errors.New("invalid signatures count")
 	}
 
+	// both values come straight from the payload: WithSignature panics on a signature that is
+	// not 65 bytes long and the chain id comparison below dereferences the pointer
+	if tx.ChainID == nil {
+		return ethtypes.ErrInvalidChainId
+	}
+	if len(signedTx.Signatures[0].Signed) != 65 {
+		return errors.New("invalid signature length")
+	}
+
 	//validate basic signature
 	signer := tx.getEthSigner(ctx)
 	ethTx := tx.tmToEthTx(ctx, signedTx.RawTx)
